@@ -443,12 +443,20 @@ fn log_sum_exp<F: linfa::Float, A: Data<Elem = F>>(
     m: &ArrayBase<A, Ix2>,
     axis: Axis,
 ) -> Array<F, Ix1> {
-    // Find max value of the array
-    let max = m.iter().copied().reduce(F::max).unwrap();
+    // Find the max value of every lane along `axis`. Shifting by the maximum of the whole array
+    // would make all the terms of a lane underflow when that lane lies far below the global maximum.
+    let max = m.fold_axis(axis, F::neg_infinity(), |acc, elem| acc.max(*elem));
     // Computes `max + ln(exp(x1-max) + exp(x2-max) + exp(x3-max) + ...)`, which is equal to the
     // log_sum_exp formula
-    let reduced = m.fold_axis(axis, F::zero(), |acc, elem| *acc + (*elem - max).exp());
-    reduced.mapv_into(|e| e.max(F::cast(1e-15)).ln() + max)
+    let mut reduced = Array1::zeros(max.len());
+    Zip::from(&mut reduced)
+        .and(m.lanes(axis))
+        .and(&max)
+        .for_each(|out, lane, &max| {
+            let sum = lane.fold(F::zero(), |acc, elem| acc + (*elem - max).exp());
+            *out = sum.ln() + max;
+        });
+    reduced
 }
 
 /// Computes `exp(n - max) / sum(exp(n- max))`, which is a numerically stable version of softmax
